@@ -27,12 +27,17 @@ SPECIALS = {
 }
 
 
-def make_kwargs_factory(kind, base, status_mode, recv_mode="ok"):
+def make_kwargs_factory(kind, base, status_mode, recv_mode="ok", backpressure=False):
     pk = clientkit.std(kind)
     a = pk["A"]
 
+    def setup(gw):
+        # the transport suspends every application write (the gateway has stalled): send() hangs in drain()
+        skip = 1 if kind == "waveshare" else 0
+        gw.pause_policy = lambda idx: idx >= skip
+
     def make(devs):
-        return dict(kind=kind,
+        return dict(kind=kind, setup=setup if backpressure else None,
                     script=[it_connect, it_feed(a[:7]), it_feed(a[7:]), it_feed(pk["A2"]),
                             it_send(lambda: clientkit.heading_message(66))],
                     specials=SPECIALS, deviations=devs, heal=steady_state(pk["PROBE"]),
@@ -102,7 +107,8 @@ def judge(sess, o):
 def _explore(args):
     kind, base, status_mode, k, names = args[:5]
     recv_mode = args[5] if len(args) > 5 else "ok"
-    make = make_kwargs_factory(kind, base, status_mode, recv_mode)
+    bp = bool(args[6]) if len(args) > 6 else False
+    make = make_kwargs_factory(kind, base, status_mode, recv_mode, bp)
     stats = {"runs": 0, "judged": 0, "outcomes": set(), "boundaries_base": 0, "nontrivial": 0}
     vios = []
     samples = []
@@ -123,8 +129,8 @@ def _explore(args):
             facts = dict(facts, client=kind)
             vios.append({"kind": kind_v, "facts": facts,
                          "signature": f"{kind_v}:{kind}:{base}:{status_mode}:{recv_mode}:{[d[1] for d in devs]}",
-                         "detail": f"[{kind} base={base} status_cb={status_mode} recv_cb={recv_mode} devs={devs}] {detail}",
-                         "case": {"client": kind, "base": base, "status_cb": status_mode, "recv_cb": recv_mode, "deviations": [list(d) for d in devs]}})
+                         "detail": f"[{kind} base={base} status_cb={status_mode} recv_cb={recv_mode}{' back-pressure' if bp else ''} devs={devs}] {detail}",
+                         "case": {"client": kind, "base": base, "status_cb": status_mode, "recv_cb": recv_mode, "backpressure": bp, "deviations": [list(d) for d in devs]}})
         if len(samples) < 2 and len(devs) == k:
             samples.append({"client": kind, "base": base, "status_cb": status_mode, "deviations": [list(d) for d in devs],
                             "status": o.status, "attempts": [(round(a.t, 3), a.outcome) for a in sess.gw.attempts]})
@@ -148,6 +154,10 @@ def plan(ctx):
             else:
                 tasks.append((kind, "r1", mode, 2, ["close", "reset", "connect2", "send"] if mode != "ok" else all_names))
                 tasks.append((kind, "r0", mode, 1, ["close"]))
+    for kind in ("ebyte", "yd", "waveshare"):
+        # close() while a send() is suspended in drain() under back-pressure, then the link fails
+        tasks.append((kind, "r0", "ok", 2, ["close", "reset", "eof", "send"], "ok", True))
+        tasks.append((kind, "r0", "slow", 2 if ctx.thorough else 1, ["close", "reset"], "ok", True))
     for kind in vloop.KINDS:
         # close() while a (slow / failing) receive callback is in progress
         tasks.append((kind, "r0", "ok", 2 if ctx.thorough else 1, ["close", "reset", "eof"] if ctx.thorough else ["close"], "slow"))
@@ -171,7 +181,7 @@ def run(ctx):
         judged += st["judged"]
         nontriv += st["nontrivial"]
         outcomes += st["outcomes"]
-        per[f"{t[0]}/{t[1]}/{t[2]}/k{t[3]}" + (f"/recv={t[5]}" if len(t) > 5 else "")] = {"executions": st["runs"], "judged": st["judged"], "redundant": st["redundant"],
+        per[f"{t[0]}/{t[1]}/{t[2]}/k{t[3]}" + (f"/recv={t[5]}" if len(t) > 5 else "") + ("/backpressure" if len(t) > 6 and t[6] else "")] = {"executions": st["runs"], "judged": st["judged"], "redundant": st["redundant"],
                                                "base_boundaries": st["boundaries_base"], "distinct_outcomes": st["outcomes"]}
     cov = {
         "states": judged, "transitions": runs, "traces_validated_against_impl": runs,
@@ -192,7 +202,7 @@ def run(ctx):
 
 def replay(ctx, rep):
     c = rep["case"]
-    make = make_kwargs_factory(c["client"], c["base"], c["status_cb"], c.get("recv_cb", "ok"))
+    make = make_kwargs_factory(c["client"], c["base"], c["status_cb"], c.get("recv_cb", "ok"), c.get("backpressure", False))
     devs = [tuple(d) for d in c["deviations"]]
     sess, o = vloop.run_session(**make(devs))
     sess2, o2 = vloop.run_session(**make(devs))
